@@ -55,7 +55,7 @@ STRS = [
     "O'Re\rilly\x00\x1a''", '\xc4\xd6\xfc \xdf_\xe9', '%C3%A9t%C3%A9+%E2%82%AC',
     'MiXeD cAsE_text', ' ', 'a', '', 'hello world foo bar baz', 'ǆemal_İstanbul',
     '100%', 'a/b?c=d&e=f g', '0', '007', 'tab\there', '~user/_x.y-z', '%252541 %25252B',
-    '1234567.1234567', '-$7654321.00', 'stra\xdfe IS_na\xefve',
+    '1234567.1234567', '-$7654321.00', 'a_b_c__d e_f', 'stra\xdfe IS_na\xefve',
 ]
 VALUES = ([RICH1, RICH2] + [['str', s] for s in STRS] +
           [['bytes', 'abc_DEF 1234567'], ['bytes', '%41+b_c'], ['bytes', '1234567']] +
@@ -67,6 +67,7 @@ ORDER_VALUES = [RICH1, RICH2, ['str', '%252541 %25252B'], ['str', '\xc4\xd6\xfc 
                 ['str', 'line1\nline2\r\nline3'], ['int', 1234567], ['float', 1234567.891],
                 ['str', 'x%2Bb+c%20d'], ['obj'], ['bytes', '%41+b_c']]
 SYNTAXES = ('dtml', 'ssi', 'ent', 'epfs')
+SAMPLE_PARTS = (('subset',), ('order',), ('fmt', 'fmt+cformat'), ('size+modifiers', 'size'), ('null', 'missing'), ('random',))
 
 
 def plan(tier, seed):
@@ -348,9 +349,9 @@ class Env:
             mech = self.classify(case, pred, mods, fmts, out, exc)
             ctx.violation(what, case, mech=mech, detail=detail,
                           key='%s_%s' % (part, '_'.join(optnames)[:60] or 'bare'))
-        elif self.nsamples < 3 and nontrivial and ctx.shard == 0 and len(optnames) >= 2:
+        elif self.nsamples < 2 and nontrivial and len(optnames) >= 3 and part in SAMPLE_PARTS[ctx.shard % len(SAMPLE_PARTS)]:
             self.nsamples += 1
-            ctx.sample({'source': src, 'x': repr(ns.get('x')), 'output': out, 'model': pred.text,
+            ctx.sample({'source': src, 'x': repr(ns['x']) if 'x' in ns else '(undefined)', 'output': out, 'model': pred.text,
                         'stage trace': names})
         return out if exc is None else ('!', type(exc).__name__)
 
@@ -709,7 +710,7 @@ def random_case(rng):
 
 def part_random(env):
     ctx = env.ctx
-    n = (5000 if ctx.tier == 'quick' else 640000) // ctx.nshards
+    n = (5000 if ctx.tier == 'quick' else 960000) // ctx.nshards
     for _ in range(n):
         env.evaluate(random_case(ctx.rng), 'random')
         ctx.count('random:cases')
